@@ -144,15 +144,27 @@ func (c *clients) probe(follower bool) bool {
 	return false
 }
 
-// dumpTable reads a whole table through the streaming API.
+// dumpTable reads a whole table through the API: one unary Range when the table fits into one
+// answer, the streaming IterateRange otherwise.
 func dumpTable(kv pb.KVClient, name string) (map[string][]byte, error) {
 	ctx, cancel := context.WithTimeout(context.Background(), 20*time.Second)
 	defer cancel()
-	st, err := kv.IterateRange(ctx, &pb.RangeRequest{Table: []byte(name), Key: []byte{0}, RangeEnd: []byte{0}})
+	req := &pb.RangeRequest{Table: []byte(name), Key: []byte{0}, RangeEnd: []byte{0}}
+	out := map[string][]byte{}
+	if resp, err := kv.Range(ctx, req); err == nil && !resp.More {
+		for _, kv := range resp.Kvs {
+			out[string(kv.Key)] = append([]byte{}, kv.Value...)
+		}
+		return out, nil
+	} else if err != nil {
+		if c := status.Code(err); c != codes.ResourceExhausted {
+			return nil, err
+		}
+	}
+	st, err := kv.IterateRange(ctx, req)
 	if err != nil {
 		return nil, err
 	}
-	out := map[string][]byte{}
 	for {
 		resp, err := st.Recv()
 		if err == io.EOF {
